@@ -654,7 +654,7 @@ func specValueCase(r *Rng, em *Emitter, w, off, size *uint256.Int, fork string) 
 	if class == "panic" {
 		recorded = "panic"
 	}
-	em.Op("C09,C03", fmt.Sprintf("S solpacked %s %s %s", hexNatU(w), hexNatU(off), hexNatU(size)), recorded)
+	em.Op("C09,C03,C12", fmt.Sprintf("S solpacked %s %s %s", hexNatU(w), hexNatU(off), hexNatU(size)), recorded)
 	em.Count("spec-vv:" + map[bool]string{true: "accepted", false: recorded}[strings.HasPrefix(recorded, "x")])
 }
 
@@ -682,7 +682,7 @@ func specStringCase(r *Rng, em *Emitter, slot *uint256.Int, st map[common.Hash]c
 		recorded = "panic"
 	}
 	sb := slot.Bytes32()
-	em.Op("C09,C03", fmt.Sprintf("S solstring %s %s %s", hexNatU(slot), storageLine(st), hexBytes(sb[:])+"="+hexHash(crypto.Keccak256Hash(sb[:]))), recorded)
+	em.Op("C09,C03,C12", fmt.Sprintf("S solstring %s %s %s", hexNatU(slot), storageLine(st), hexBytes(sb[:])+"="+hexHash(crypto.Keccak256Hash(sb[:]))), recorded)
 	em.Count("spec-vr:" + label + ":" + map[bool]string{true: "accepted", false: recorded}[strings.HasPrefix(recorded, "x")])
 }
 
